@@ -19,10 +19,12 @@ CLASSES = {
     'AMP': ['&'], 'AT': ['@'], 'DEL': ['\x7f'], 'C1': ['\x80', '\x9f'], 'BMP': ['\xa0', '中'], 'SURR': ['\ud800'],
     'ASTRAL': ['\U0001f600', '\U0010ffff'],
     'ESCBIG': ['\\110000', '\\ffffff'], 'ESCZERO': ['\\0', '\\000000 '], 'ESCSURR': ['\\d800', '\\dfff '], 'ESCMAX': ['\\10ffff '],
+    'FOLD': ['\u017f', '\u0130', '\u0131', '\u212a'],      # characters that Unicode case folding maps onto ASCII letters (re.I)
     'CMT': ['/**/', '/*'], 'NAME': [':is', ':nth-child', ':lang', ':--x', '::before', ':hover', ':contains'],
 }
 CONTEXTS = ['%s', '[a=%s]', '[%s]', ':is(%s)', ':not(%s)', ':has(%s)', ':lang(%s)', ':nth-child(%s)', ':-soup-contains(%s)',
-            'a %s b', '[a="%s', ':is(%s', '/*%s', ':nth-child(2n+1 of %s)', "[a='%s']"]
+            'a %s b', '[a="%s', ':is(%s', '/*%s', ':nth-child(2n+1 of %s)', "[a='%s']",
+            '[a=b %s]', '[a="b"%s]', ':nth-child(2%s+1)', ':dir(%s)', ':%s(a)', '%s|a', '[%s|a]', ':nth-child(2n+1 %s a)']
 ALLOWED = ('SelectorSyntaxError', 'NotImplementedError')
 
 
@@ -136,7 +138,7 @@ def _custom_part(chk, tier):
 
 def main(tier):
     chk = common.Check('C06', tier)
-    chk.assumptions += ['Unicode is abstracted by 42 character classes with 1-7 representatives each (incl. multi-character escapes as atoms)',
+    chk.assumptions += ['Unicode is abstracted by 43 character classes with 1-7 representatives each (incl. multi-character escapes as atoms)',
                         'nesting depth far below the recursion budget', 'escapes naming surrogates: only "no other exception" is gated']
     maxlen = 2 if tier == 'quick' else 3
     classes = '{' + ', '.join('"%s"' % c for c in sorted(CLASSES)) + '}'
